@@ -141,7 +141,15 @@ class Builder:
         vals, exps = [], []
         for _ in range(n):
             if d.type_class is not None:
-                obj, sub = self.container(d.type_class, depth + 1)
+                # One container object may sit at several places of one message (listed twice, or reached through two
+                # parents - what copy.copy() of a parent gives): every place yields its AVP with all its members.
+                pool = self.__dict__.setdefault("pool", {}).setdefault(d.type_class, [])
+                if pool and self.rng.random() < 0.2:
+                    obj, sub = self.rng.choice(pool)
+                    self.aliased = getattr(self, "aliased", 0) + 1
+                else:
+                    obj, sub = self.container(d.type_class, depth + 1)
+                    pool.append((obj, sub))
                 vals.append(obj)
                 exps.append(("g", sub))
             else:
@@ -324,6 +332,8 @@ class Dyn:
             self.cov["with_extras"] += 1
             self.cov["extras_with_declared_code_other_vendor"] = \
                 self.cov.get("extras_with_declared_code_other_vendor", 0) + getattr(b, "colliding_extras", 0)
+            self.cov["container_objects_referenced_from_two_places"] = \
+                self.cov.get("container_objects_referenced_from_two_places", 0) + getattr(b, "aliased", 0)
             self.cov["extras_numerically_close_to_a_declared_pair"] = \
                 self.cov.get("extras_numerically_close_to_a_declared_pair", 0) + getattr(b, "near_extras", 0)
         names = sorted(set_vals)
